@@ -236,6 +236,10 @@ class Processor:
         """
         att: str
         obj, att = _get_obj_att(obj=self, key=key)
+        if obj is None:
+            # The path does not exist ('None' has '__class__', '__eq__', ...)
+            return False
+
         if isinstance(obj, dict) and att in obj:
             return True
 
